@@ -46,7 +46,11 @@ def run(tier, seed):
     cpath = os.path.join(wd, "cases.ndjson")
     vlib.write_cases(cases, cpath)
     opts = ["--seed=%d" % seed] + (["--all-variants"] if tier == "thorough" else [])
-    rep = vlib.run_harness("xref", cpath, os.path.join(wd, "report.json"), opts)
+    if len(cases) > 20000:
+        rep = vlib.run_harness_sharded("xref", cases, wd, opts, shards=12)
+        json.dump(rep, open(os.path.join(wd, "report.json"), "w"))
+    else:
+        rep = vlib.run_harness("xref", cpath, os.path.join(wd, "report.json"), opts)
     v.from_report(rep)
     rc = v.finish()
     vlib.write_evidence(PID, tier, seed, "model_checking", {
